@@ -140,6 +140,6 @@ def run(ctx, res):
     if n < 1:
         raise AnalysisBroken("file_write no longer contains a retry loop")
     rule_x_barrier(prog, res, tus=["storage/tiff.cpp", "storage/side-by-side-tiff.cpp"])
-    res.require_min("X-BARRIER", 30)
+    res.require_min("X-BARRIER", 20)
     res.require_min("FD/FAIL-SIM", 4)
     res.require_min("LOOP-PROGRESS", 1)
